@@ -2,6 +2,9 @@ import CookModel.Num.Scale
 import CookModel.Lemmas.Convert
 import CookModel.Lemmas.Scale
 import CookModel.Lemmas.ConvertExample
+import CookModel.Lemmas.ScaleMore
+import CookModel.Lemmas.ScaleAnalysis
+import CookModel.Lemmas.ClosingStream
 /-
   C08  Scaling multiplies exactly the scalable amounts and nothing else.
 
@@ -208,6 +211,137 @@ theorem C08_servings_is_factor (c : Converter Rat) (r : ScalableRecipe Rat) (n :
   · have h1 : ((n : Rat) / 1) = (n : Rat) := by grind
     simp [recipeScaleToServings, servingsBase, h1]
 
+/-! ## additions of the clause audit (notes/audit-C08.md) -/
+
+/-- The decision "which values are `Linear`" of the *analysis* model (the model of
+    `RecipeParser::value` that builds the recipes, `Analysis/Collector.lean`) is `mkScalable`, so
+    `C08_which_linear` / `C08_linear_never_text` speak about every recipe the analysis model returns:
+    for every arithmetic instance, environment and collector state, the value of an ingredient
+    quantity is `Linear` iff it is not text and not locked; quantities of timers (`quantityOf … false`)
+    and cookware (`optValueOf`) are always `Fixed`. -/
+theorem C08_analysis_decides_linear {α : Type} [Arith α] (env : Env) (s : Col α) :
+    (∀ (v : PQValue α) (isIngredient : Bool),
+      (valueOf env v isIngredient s).1 = mkScalable isIngredient v.lock.isSome v.value.val) ∧
+    (∀ (q : Loc (PQuantity α)) (isIngredient : Bool),
+      (quantityOf env q isIngredient s).1.value =
+        mkScalable isIngredient q.val.value.lock.isSome q.val.value.value.val) ∧
+    (∀ (q : Loc (PQuantity α)), (quantityOf env q false s).1.value = .fixed q.val.value.value.val) ∧
+    (∀ (v : Loc (PQValue α)), (optValueOf env (some v) s).1 = some (.fixed v.val.value.val)) := by
+  have hq : ∀ (q : Loc (PQuantity α)) (b : Bool),
+      (quantityOf env q b s).1.value = (valueOf env q.val.value b s).1 := by
+    intro q b
+    simp only [quantityOf, bind, StateT.bind, pure, StateT.pure]
+    cases valueOf env q.val.value b s; rfl
+  refine ⟨fun v b => scm_valueOf_eq env v b s, ?_, ?_, ?_⟩
+  · intro q b; rw [hq, scm_valueOf_eq]
+  · intro q; rw [hq, scm_valueOf_eq, scm_mkScalable_not_ingredient]
+  · intro v
+    have : (optValueOf env (some v) s).1 = some (valueOf env v.val false s).1 := by
+      simp only [optValueOf, bind, StateT.bind, pure, StateT.pure]
+      cases valueOf env v.val false s; rfl
+    rw [this, scm_valueOf_eq, scm_mkScalable_not_ingredient]
+
+/-- The whole recipe, position by position: the `k`-th ingredient / cookware / timer of the result
+    and the `k`-th entry of the corresponding outcome vector are the scaled `k`-th component and
+    its outcome ("outcomes that line up with the components"), so every per-component theorem above
+    applies at every position of every recipe. -/
+theorem C08_recipe_scale_positions (c : Converter Rat) (r : ScalableRecipe Rat) (f : Rat) :
+    (∀ (k : Nat) i, r.ingredients[k]? = some i →
+      (recipeScale c r f).1.ingredients[k]? = some (scaleIngredient c f i).1 ∧
+      (recipeScale c r f).2.ingredients[k]? = some (scaleIngredient c f i).2) ∧
+    (∀ (k : Nat) x, r.cookware[k]? = some x →
+      (recipeScale c r f).1.cookware[k]? = some (scaleCookware f x).1 ∧
+      (recipeScale c r f).2.cookware[k]? = some (scaleCookware f x).2) ∧
+    (∀ (k : Nat) t, r.timers[k]? = some t →
+      (recipeScale c r f).1.timers[k]? = some (scaleTimer c f t).1 ∧
+      (recipeScale c r f).2.timers[k]? = some (scaleTimer c f t).2) :=
+  ⟨fun k i h => scm_getElem?_map_fst _ _ k i h, fun k x h => scm_getElem?_map_fst _ _ k x h,
+   fun k t h => scm_getElem?_map_fst _ _ k t h⟩
+
+/-- The headline clause at recipe level. In every recipe, for every factor: an ingredient at
+    position `k` whose quantity is `Linear` and not text gets outcome `Scaled` at position `k`,
+    keeps name, alias, note, reference, relation and modifiers, and its quantity afterwards states
+    — with an unknown or absent unit — the written unit and `f ·` every number, and — with a known
+    unit `u` — in a unit `nu` of `u`'s physical quantity, the amounts of `f · value` in `u`
+    (end-wise for ranges, fraction error included), which for a unit without additive offset is
+    `f ·` the physical amount. -/
+theorem C08_recipe_scale_linear {c : Converter Rat} (hc : c.Sound) (r : ScalableRecipe Rat) (f : Rat)
+    (k : Nat) (i : Ingredient (ScalableValue Rat)) (v : Value Rat) (unit : Option Str)
+    (hk : r.ingredients[k]? = some i) (hq : i.quantity = some ⟨.linear v, unit⟩)
+    (hv : v.isText = false) :
+    (recipeScale c r f).2.ingredients[k]? = some .scaled ∧
+    ∃ i' q', (recipeScale c r f).1.ingredients[k]? = some i' ∧ i'.quantity = some q' ∧
+      (i'.name = i.name ∧ i'.alias = i.alias ∧ i'.note = i.note ∧ i'.reference = i.reference ∧
+        i'.relation = i.relation ∧ i'.modifiers = i.modifiers) ∧
+      ((unitInfo c ⟨v, unit⟩ = none ∧ q'.unit = unit ∧ q'.value.parts = v.parts.map (fun x => x * f)) ∨
+       ∃ u nu, unitInfo c ⟨v, unit⟩ = some u ∧ unitInfo c q' = some nu ∧ nu.pq = u.pq ∧
+         q'.value.parts.map (fun y => amount y nu) = v.parts.map (fun x => amount (x * f) u) ∧
+         (u.difference = 0 →
+           q'.value.parts.map (fun y => amount y nu) = v.parts.map (fun x => f * amount x u))) := by
+  obtain ⟨h1, h2⟩ := (C08_recipe_scale_positions c r f).1 k i hk
+  obtain ⟨ho, q', hq', hcase⟩ := C08_scale_linear hc f i v unit hq hv
+  refine ⟨by rw [h2, ho], (scaleIngredient c f i).1, q', h1, hq', scaleIngredient_fields c f i, ?_⟩
+  rcases hcase with hl | ⟨u, nu, hu, hnu, hpq, hamt⟩
+  · exact Or.inl hl
+  · refine Or.inr ⟨u, nu, hu, hnu, hpq, hamt, ?_⟩
+    intro hd
+    rw [hamt]
+    apply List.map_congr_left
+    intro x _
+    exact amount_mul x f u hd
+
+/-- The whole-run invariant of the analysis model: in every recipe `parse` returns (any input,
+    extension set and converter environment; valid or alongside diagnostics), every `Linear`
+    ingredient value is a number or a range, and every cookware and timer value is `Fixed`. -/
+theorem C08_parsed_recipe_values (env : Env) (input : Str) (c : Col Rat)
+    (h : (parseRecipe (α := Rat) env input).output = some c) : QtyInv c :=
+  sa_parseEventsLoop_qty env input _ {} c (Inv.init env) QtyInv.init
+    (pullEvents_evOK env.cs env.ext input) h
+
+/-- **No `Error` on a parsed recipe, only ingredients are `Scaled`.** Scaling the recipe `parse`
+    returns — read as a `ScalableRecipe` `r` with the collector's component tables — by any factor
+    with any converter never reports the outcome `Error`; cookware and timers only report `Fixed` or
+    `NoQuantity` (so nothing but ingredient quantities is ever multiplied). -/
+theorem C08_parsed_recipe_outcomes (env : Env) (input : Str) (c : Col Rat)
+    (h : (parseRecipe (α := Rat) env input).output = some c) (conv : Converter Rat)
+    (r : ScalableRecipe Rat) (hi : r.ingredients = c.ingredients.toList)
+    (hc : r.cookware = c.cookware.toList) (ht : r.timers = c.timers.toList) (f : Rat) :
+    (∀ o ∈ (recipeScale conv r f).2.ingredients, o ≠ .error) ∧
+    (∀ o ∈ (recipeScale conv r f).2.cookware, o = .fixed ∨ o = .noQuantity) ∧
+    (∀ o ∈ (recipeScale conv r f).2.timers, o = .fixed ∨ o = .noQuantity) := by
+  have hq := C08_parsed_recipe_values env input c h
+  obtain ⟨h1, h2, h3, _⟩ := C08_outcomes_align conv r f
+  rw [h1, h2, h3, hi, hc, ht]
+  refine ⟨?_, ?_, ?_⟩
+  · intro o ho
+    obtain ⟨ig, hig, rfl⟩ := List.mem_map.mp ho
+    obtain ⟨k, hk⟩ := List.getElem?_of_mem hig
+    rw [Array.getElem?_toList] at hk
+    cases hqq : ig.quantity with
+    | none => simp [outcomeOf]
+    | some q =>
+      cases hv : q.value with
+      | fixed v => simp [outcomeOf, hv]
+      | linear v => simp [outcomeOf, hv, hq.ingr k ig hk q hqq v hv]
+  · intro o ho
+    obtain ⟨cw, hcw, rfl⟩ := List.mem_map.mp ho
+    obtain ⟨k, hk⟩ := List.getElem?_of_mem hcw
+    rw [Array.getElem?_toList] at hk
+    cases hqq : cw.quantity with
+    | none => right; rfl
+    | some sv =>
+      obtain ⟨v, rfl⟩ := hq.cw k cw hk sv hqq
+      left; rfl
+  · intro o ho
+    obtain ⟨t, htm, rfl⟩ := List.mem_map.mp ho
+    obtain ⟨k, hk⟩ := List.getElem?_of_mem htm
+    rw [Array.getElem?_toList] at hk
+    cases hqq : t.quantity with
+    | none => right; rfl
+    | some q =>
+      obtain ⟨v, hv⟩ := hq.tm k t hk q hqq
+      left; simp [outcomeOf, hv]
+
 /-! ## non-vacuity (on the hand-written example converter `Ex.conv`, independent of units.toml) -/
 
 /-- `@flour{500%g}` ×3 → 1.5 kg: amount 1500 g -/
@@ -233,5 +367,20 @@ example : mkScalable true false (.number (.regular (2 : Rat))) = .linear (.numbe
 example : mkScalable true true (.number (.regular (2 : Rat))) = .fixed (.number (.regular 2)) := by
   decide +kernel
 example : Ex.conv.Sound := soundB_sound _ (by decide +kernel)
+
+/-- a whole recipe (`@flour{500%g}`, `@salt{=1%pinch}`, `#pan{2}`, `~{90%s}`; `scmExampleRecipe`) ×3:
+    flour becomes 1.5 kg (`Scaled`), the locked salt with its unknown unit stays (`Fixed`), the pan
+    stays 2 (`Fixed`), the timer keeps its 90 s (`Fixed`) -/
+example :
+    (recipeScale Ex.conv scmExampleRecipe 3).1.ingredients.map (·.quantity) =
+      [some ⟨.number (.regular (3/2)), some ['k','g']⟩,
+       some ⟨.number (.regular 1), some ['p','i','n','c','h']⟩] ∧
+    (recipeScale Ex.conv scmExampleRecipe 3).1.cookware.map (·.quantity) =
+      [some (.number (.regular 2))] ∧
+    (recipeScale Ex.conv scmExampleRecipe 3).1.timers.map (·.quantity) =
+      [some ⟨.number (.regular 90), some ['s']⟩] ∧
+    (recipeScale Ex.conv scmExampleRecipe 3).2.ingredients = [.scaled, .fixed] ∧
+    (recipeScale Ex.conv scmExampleRecipe 3).2.cookware = [.fixed] ∧
+    (recipeScale Ex.conv scmExampleRecipe 3).2.timers = [.fixed] := by decide +kernel
 
 end Cook
